@@ -39,6 +39,7 @@ type c20Event struct {
 
 type c20Subscriber struct {
 	conn   net.Conn
+	raw    net.Conn
 	br     *bufio.Reader
 	reads  bool
 	mu     sync.Mutex
@@ -72,7 +73,7 @@ func c20Connect(addr string, read bool) (*c20Subscriber, error) {
 		return nil, fmt.Errorf("connect: %q %v", status, err)
 	}
 	br.ReadString('\n')
-	s := &c20Subscriber{conn: conn, br: br, reads: read}
+	s := &c20Subscriber{conn: conn, raw: raw, br: br, reads: read}
 	s.cond = sync.NewCond(&s.mu)
 	if read {
 		s.startReading()
@@ -181,7 +182,7 @@ func (s *c20Subscriber) upTo(sentinel string, maxWait time.Duration) ([]c20Event
 }
 
 func TestVerifC20(t *testing.T) {
-	rep := newVerifReport("C20", "(publication) a subscriber connected like keymaster-eventmond (CONNECT /eventmon/v0 on the admin port); for every issuing path (certgen ssh/x509/kubernetes with several key types, automation mint, automation refresh, cloud role) and for password login, web login, second-factor and service-provider login events: operation, then sentinel; the certificate / login event must be in the subscriber's FIFO before the sentinel with bytes equal to those returned; with 0..3 subscribers one of which never reads (small receive buffer, so the daemon's queue for it overflows), a burst of issuances must complete and every certificate of it must reach each subscriber that reads; class = (path or event kind, subscribers, outcome)")
+	rep := newVerifReport("C20", "(publication) a subscriber connected like keymaster-eventmond (CONNECT /eventmon/v0 on the admin port); for every issuing path (certgen ssh/x509/kubernetes with several key types, automation mint, automation refresh, cloud role) and for password login, web login, second-factor and service-provider login events: operation, then sentinel; the certificate / login event must be in the subscriber's FIFO before the sentinel with bytes equal to those returned; with 0..3 subscribers one of which never reads (small receive buffer, so the daemon's queue for it overflows), a burst of issuances must complete and every certificate of it must reach each subscriber that reads, and the non-reading one, once it has caught up, must be served again; class = (path or event kind, subscribers, outcome)")
 	defer rep.Finish()
 	verifInstallFakeSTS()
 	vip := newVerifFakeVIP()
@@ -500,9 +501,12 @@ func TestVerifC20(t *testing.T) {
 			if s.reads {
 				continue
 			}
+			if tc, ok := s.raw.(*net.TCPConn); ok {
+				tc.SetReadBuffer(4 << 20) // it reads now, and at an ordinary pace
+			}
 			s.startReading()
 			last, same := -1, 0
-			for k := 0; k < 300 && same < 30; k++ { // until nothing more has arrived for 1.5 s
+			for k := 0; k < 1200 && (same < 30 || last == 0); k++ { // until something has arrived and then nothing more for 1.5 s
 				time.Sleep(50 * time.Millisecond)
 				if n := s.received(); n == last {
 					same++
@@ -522,6 +526,46 @@ func TestVerifC20(t *testing.T) {
 			if got < burst {
 				rep.Count("bursts_where_stalled_queue_overflowed", 1)
 			}
+			// the subscriber has caught up, is still connected and reads now: it is an ordinary subscriber again and
+			// must get the certificates issued from here on.  Up to six certificates, 5 s each; the verdict needs all
+			// of: connection still open, every always-reading subscriber received all of them, this one none.
+			s.mu.Lock()
+			closed := s.err != nil
+			s.mu.Unlock()
+			if closed {
+				rep.Obs("the non-reading subscriber's connection was closed by the daemon after the burst (subscribers=%d): not judged", nSubs)
+				continue
+			}
+			recovered, othersGotAll, tried := false, true, 0
+			for k := 0; k < 6 && !recovered; k++ {
+				q := verifCertReq("alice", "x509", verifPKIXPEM(verifUserECKey().Public()), "1h", nil)
+				q.Cookies = verifCk(aliceCk)
+				resp := env.Do(q.Build())
+				cert, err := verifParseX509PEM(resp.Body)
+				if resp.Code != 200 || err != nil {
+					continue
+				}
+				tried++
+				for _, o := range subs {
+					if o.reads && o != s && !o.waitCert(cert.Raw, 5*time.Second) {
+						othersGotAll = false
+					}
+				}
+				recovered = s.waitCert(cert.Raw, 5*time.Second)
+			}
+			s.mu.Lock()
+			closed = s.err != nil
+			s.mu.Unlock()
+			rep.Eval(fmt.Sprintf("burst|subscribers=%d|stalled-subscriber-recovered=%v", nSubs, recovered))
+			switch {
+			case recovered:
+				rep.Count("stalled_subscribers_recovered", 1)
+			case tried >= 6 && othersGotAll && !closed:
+				rep.Violate("C20/recovered-subscriber-never-served-again", "a subscriber that fell behind, caught up and stayed connected received none of the 6 certificates issued afterwards (every other subscriber received all of them)",
+					map[string]interface{}{"subscribers": nSubs, "certificates_issued_after_catch_up": tried})
+			default:
+				rep.Inconc("burst with %d subscribers: recovery of the non-reading subscriber could not be judged (issued %d, others complete=%v, closed=%v)", nSubs, tried, othersGotAll, closed)
+			}
 		}
 		for _, s := range subs {
 			s.conn.Close()
@@ -534,6 +578,7 @@ func TestVerifC20(t *testing.T) {
 	rep.Floor("burst_issuances", 300)
 	rep.Floor("burst_deliveries_to_reading_subscribers", 200)
 	rep.Floor("bursts_where_stalled_queue_overflowed", 1)
+	rep.Floor("stalled_subscribers_recovered", 2)
 }
 
 func evTypes(evs []c20Event) []string {
